@@ -6,8 +6,7 @@ attribute / module-level container of pvl.*; states are de-duplicated (equal
 state => equal futures), depth-bounded.  After every call the outcome (module,
 errors attribute, placeholder line numbers, exception type and attributes) is
 compared with the pristine baseline: the same call on a fresh instance in a
-freshly forked process that has executed nothing else.  The global fingerprint
-must never change.  Also the long-lived shared instances of
+freshly forked process that has executed nothing else.  Also the long-lived shared instances of
 pvl_validate.dialects / pvl_translate.formats.
 """
 import datetime as dt
@@ -41,16 +40,40 @@ DEC_CALLS = [["simple", "1"], ["simple", "1.5"], ["simple", "2001-001"], ["simpl
              ["simple", "12:00+01"], ["simple", "END"]]
 
 
+class Length(float):
+    """A float that also carries a unit: a plain number for every encoder unless
+    some encoder has been told it is a quantity class."""
+
+    def __new__(cls, value, units="m"):
+        self = float.__new__(cls, value)
+        self.value = float(value)
+        self.units = units
+        return self
+
+
 def modules():
     P, G, O, Q = impl.PVLModule, impl.PVLGroup, impl.PVLObject, impl.Quantity
+    utc = dt.timezone.utc
+    p1 = dt.timezone(dt.timedelta(hours=1))
+    one = lambda v: (lambda: P([("v", v)]))      # noqa: E731
     return [
         lambda: P([("a", 1), ("b", "x y"), ("c", [1, 2])]),
         lambda: P([("g", G([("a", 1)])), ("h", G([("a", 1), ("a", 2)]))]),
         lambda: P([("a", 1), ("g", G([("b", complex(1, 2))]))]),
         lambda: P([("q", Q(1.5, "m")), ("r", Q("s", "m"))]),
-        lambda: P([("s", frozenset([1, 2])), ("t", dt.time(1, 2, 3, 4, tzinfo=dt.timezone.utc))]),
+        lambda: P([("s", frozenset([1, 2])), ("t", dt.time(1, 2, 3, 4, tzinfo=utc))]),
         lambda: P([("o", O([("g", G([("k", "v")])), ("k", None)])), ("d", dt.date(2001, 2, 3))]),
-        lambda: P([("z", dt.time(1, 2, tzinfo=dt.timezone(dt.timedelta(hours=1))))]),
+        lambda: P([("z", dt.time(1, 2, tzinfo=p1))]),
+        # values that compare/hash equal but must be written differently
+        one(1), one(1.0), one(True), one(0), one(False), one("1"),
+        one(dt.time(12, 0, tzinfo=utc)), one(dt.time(13, 0, tzinfo=p1)),
+        one(dt.datetime(2001, 1, 1, 0, 30, tzinfo=p1)), one(dt.datetime(2000, 12, 31, 23, 30, tzinfo=utc)),
+        # sequences: 2-D, 3-D (ODL refuses), a failure inside a sequence
+        one([[1, 2], [3]]), one([[[1]]]), one([1, "both ' and \" quotes"]), one([1, [2, complex(0, 1)]]),
+        one([dt.time(1, 2)]),
+        # a number that would be a quantity if some encoder's registration leaked
+        one(Length(3.5, "m")),
+        lambda: P([("k" * 31, 1)]), lambda: P([("bad key", 1), ("a", 1)]),
     ]
 
 
@@ -184,15 +207,37 @@ def make(kind, name):
     raise KeyError(kind)
 
 
+INTERFERE = -1     # "somebody else in the process uses other instances"
+
+
 def alphabet(kind):
     if kind in ("parser", "validate"):
-        return list(range(len(TEXTS)))
+        return [INTERFERE] + list(range(len(TEXTS)))
     if kind in ("encoder", "translate"):
-        return list(range(len(modules())))
-    return list(range(len(DEC_CALLS)))
+        return [INTERFERE] + list(range(len(modules())))
+    return [INTERFERE] + list(range(len(DEC_CALLS)))
+
+
+def interfere():
+    """Activity on OTHER instances: must never influence ours."""
+    for name in impl.DIALECTS:
+        p = impl.make_parser(name)
+        for t in (TEXTS[2], TEXTS[3], TEXTS[0]):
+            outcome_parse(p, t)
+        d = impl.make_grammar_decoder(name)[1]
+        for c in DEC_CALLS[:5]:
+            outcome_decode(d, c)
+    for name in impl.ENCODERS:
+        e = impl.make_encoder(name)
+        e.add_quantity_cls(Length, "value", "units")
+        for mk in modules()[:6]:
+            outcome_encode(e, mk)
+    return ("ok", "interference")
 
 
 def do_call(kind, inst, i):
+    if i == INTERFERE:
+        return interfere()
     if kind == "parser":
         return outcome_parse(inst, TEXTS[i])
     if kind == "validate":
@@ -264,11 +309,11 @@ def explore(spec):
     if kind in ("validate", "translate"):
         return explore_shared(spec)
     acc = Acc()
-    g0 = global_fingerprint()
     seen = {}
     frontier = [[]]
     alpha = alphabet(kind)
     d = 0
+    log = []          # every history executed so far in this (fresh) process
     while frontier and d < depth:
         nxt = []
         for hist in frontier:
@@ -277,26 +322,20 @@ def explore(spec):
                 for h in hist:
                     do_call(kind, inst, h)
                 out = do_call(kind, inst, i)
+                log.append(hist + [i])
                 acc.n += 1
                 acc.transitions += 1
-                case = {"kind": kind, "name": name, "history": hist, "call": i}
                 if out != base[i]:
                     acc.outcomes["violation"] += 1
+                    case = {"kind": kind, "name": name, "log": [list(x) for x in log]}
                     acc.violation(case, "outcome-depends-on-history:" + kind,
-                                  "after %r call %r gives %r; a fresh instance gives %r"
+                                  "after %r call %r gives %r; a fresh instance in a fresh process gives %r"
                                   % (hist, i, _short(out), _short(base[i])),
                                   sig="%s|%s|%s" % (kind, name, _kindof(out, base[i])))
                     continue
-                g1 = global_fingerprint()
-                if g1 != g0:
-                    diff = [x for x in g1 if x not in g0][:2]
-                    acc.violation(case, "global-state-changed:" + kind, repr(diff)[:400],
-                                  sig="%s|%s|global" % (kind, name))
-                    g0 = g1
-                    continue
                 acc.nontrivial += 1
                 acc.outcomes[out[0] if isinstance(out[0], str) else "pair"] += 1
-                st = state_of(kind, inst)
+                st = (state_of(kind, inst), global_fingerprint())
                 if st not in seen:
                     seen[st] = hist + [i]
                     nxt.append(hist + [i])
@@ -317,7 +356,6 @@ def explore_shared(spec):
     kind, name, depth, base = spec
     acc = Acc()
     inst = make(kind, name)
-    g0 = global_fingerprint()
     alpha = alphabet(kind)
     hist = []
     seen = set()
@@ -327,22 +365,18 @@ def explore_shared(spec):
                 out = do_call(kind, inst, c)
                 acc.n += 1
                 acc.transitions += 1
-                case = {"kind": kind, "name": name, "history": list(hist), "call": c}
                 hist.append(c)
                 if out != base[c]:
                     acc.outcomes["violation"] += 1
+                    case = {"kind": kind, "name": name, "log": [list(hist)]}
                     acc.violation(case, "outcome-depends-on-history:" + kind,
                                   "after %r call %r gives %r; a fresh instance gives %r"
-                                  % (case["history"][-4:], c, _short(out), _short(base[c])),
+                                  % (hist[-5:-1], c, _short(out), _short(base[c])),
                                   sig="%s|%s|%s" % (kind, name, _kindof(out, base[c])))
-                    continue
-                if global_fingerprint() != g0:
-                    acc.violation(case, "global-state-changed:" + kind, "", sig="%s|%s|global" % (kind, name))
-                    g0 = global_fingerprint()
                     continue
                 acc.nontrivial += 1
                 acc.outcomes[out[0] if isinstance(out[0], str) else "pair"] += 1
-                seen.add(state_of(kind, inst))
+                seen.add((state_of(kind, inst), global_fingerprint()))
     acc.states = len(seen)
     acc.extra["fixpoint"] = 1
     acc.sample({"kind": kind, "name": name, "states": len(seen), "cumulative_history": len(hist)})
@@ -375,7 +409,10 @@ def run(ctx):
     # baselines are computed here, in processes forked from this parent, which
     # itself never executes a pvl call
     specs = [(k, n, d, baselines(k, n)) for k, n, d in specs]
-    acc = ctx.pmap(explore, specs)
+    acc = Acc()
+    with multiprocessing.get_context("fork").Pool(16, maxtasksperchild=1) as pool:
+        for r in pool.imap_unordered(explore, specs):
+            acc.merge(r)
     cov = {
         "evaluations": acc.n,
         "distinct_nontrivial": acc.nontrivial,
@@ -400,33 +437,48 @@ def run(ctx):
 
 
 def replay(case):
-    if case["kind"] in ("validate", "translate"):
-        # shared module-level instances: re-execute in a freshly forked process so
-        # that nothing issued earlier in this process is part of the history
-        base = baselines(case["kind"], case["name"])
-        with multiprocessing.get_context("fork").Pool(1, maxtasksperchild=1) as pool:
-            return pool.apply(_replay, (case, base))
-    return _replay(case, baselines(case["kind"], case["name"]))
+    """Always in a freshly forked process: the log is the complete list of
+    histories the process had executed (each on its own instance, or - for the
+    shared module-level instances - one cumulative history)."""
+    base = baselines(case["kind"], case["name"])
+    with multiprocessing.get_context("fork").Pool(1, maxtasksperchild=1) as pool:
+        return pool.apply(_replay, (case, base))
 
 
 def _replay(case, base):
     kind, name = case["kind"], case["name"]
-    g0 = global_fingerprint()
-    inst = make(kind, name)
-    for h in case["history"]:
-        do_call(kind, inst, h)
-    out = do_call(kind, inst, case["call"])
-    vs = []
-    if out != base[case["call"]]:
-        vs.append({"case": case, "diagnosis": "outcome-depends-on-history:" + kind,
-                   "detail": "%s vs fresh %s" % (_short(out), _short(base[case["call"]]))})
-    elif global_fingerprint() != g0:
-        vs.append({"case": case, "diagnosis": "global-state-changed:" + kind, "detail": ""})
-    return vs
+    shared = kind in ("validate", "translate")
+    out = None
+    last = None
+    for hist in case["log"]:
+        if not hist:
+            continue
+        inst = make(kind, name)
+        for h in hist:
+            out = do_call(kind, inst, h)
+        last = hist[-1]
+    if last is None:
+        return []
+    if out != base[last]:
+        return [{"case": case, "diagnosis": "outcome-depends-on-history:" + kind,
+                 "detail": "log of %d histories, last %r: %s vs fresh %s"
+                           % (len(case["log"]), case["log"][-1], _short(out), _short(base[last]))}]
+    return []
 
 
 def candidates(case):
-    h = case["history"]
-    for i in range(len(h)):
-        c = dict(case); c["history"] = h[:i] + h[i + 1:]
-        yield c
+    log = case["log"]
+    n = len(log)
+    if n > 1:
+        # only the last history (a pure per-instance leak), then ddmin-style chunks
+        yield dict(case, log=[log[-1]])
+        size = n // 2
+        while size >= 1:
+            for lo in range(0, n - 1, size):
+                c = log[:lo] + log[min(lo + size, n - 1):]
+                if len(c) < n:
+                    yield dict(case, log=c)
+            size //= 2
+    last = log[-1]
+    for i in range(len(last) - 1):
+        yield dict(case, log=log[:-1] + [last[:i] + last[i + 1:]])
